@@ -101,7 +101,8 @@ Definition closed (m : muxw) : bool := m_sr m && m_sw m.
 
 (* the channel table changes only when a wrapper becomes closed *)
 Definition chan_change_ok (m m' : muxw) (x x' : mux) : Prop :=
-  x_chan x' (m_chan m) = x_chan x (m_chan m) \/ (closed m = false /\ closed m' = true /\ x_chan x' (m_chan m) = None).
+  (closed m' = closed m /\ x_chan x' (m_chan m) = x_chan x (m_chan m)) \/
+  (closed m = false /\ closed m' = true /\ x_chan x' (m_chan m) = None).
 
 Lemma maybe_close_ext m x fid : mux_ext (m_chan m) fid x (m_maybe_close m x) [].
 Proof.
@@ -195,25 +196,27 @@ Qed.
 
 (* ---------------- channel-table changes ---------------- *)
 Lemma cc_refl m x : chan_change_ok m m x x.
-Proof. left. reflexivity. Qed.
+Proof. left. split; reflexivity. Qed.
 
 Lemma mux_send_chan x c cmd d f k : x_chan (mux_send x c cmd d f) k = x_chan x k.
 Proof. reflexivity. Qed.
 
 Lemma setnoread_cc m x : chan_change_ok m (fst (m_setnoread m x)) x (snd (m_setnoread m x)).
 Proof.
-  unfold m_setnoread, chan_change_ok, closed. destruct (m_sr m) eqn:E; cbn [fst snd]; [left; reflexivity|].
-  unfold m_maybe_close. cbn [m_sr m_sw m_chan]. destruct (m_sw m); cbn [andb].
+  unfold m_setnoread. destruct (m_sr m) eqn:E; cbn [fst snd]; [apply cc_refl|].
+  unfold chan_change_ok, closed, m_maybe_close. cbn [m_sr m_sw m_chan]. rewrite E.
+  destruct (m_sw m); cbn [andb].
   - right. splits; auto. cbn. apply upd_same.
-  - left. reflexivity.
+  - left. split; reflexivity.
 Qed.
 
 Lemma setnowrite_cc m x : chan_change_ok m (fst (m_setnowrite m x)) x (snd (m_setnowrite m x)).
 Proof.
-  unfold m_setnowrite, chan_change_ok, closed. destruct (m_sw m) eqn:E; cbn [fst snd]; [left; reflexivity|].
-  unfold m_maybe_close. cbn [m_sr m_sw m_chan]. destruct (m_sr m); cbn [andb].
+  unfold m_setnowrite. destruct (m_sw m) eqn:E; cbn [fst snd]; [apply cc_refl|].
+  unfold chan_change_ok, closed, m_maybe_close. cbn [m_sr m_sw m_chan]. rewrite E.
+  destruct (m_sr m) eqn:E2; cbn [andb].
   - right. splits; auto. cbn. apply upd_same.
-  - left. reflexivity.
+  - left. split; reflexivity.
 Qed.
 
 Lemma noread_cc m x fid : chan_change_ok m (fst (m_noread m x fid)) x (snd (m_noread m x fid)).
@@ -243,12 +246,9 @@ Lemma cc_trans m m1 m2 x x1 x2 :
 Proof.
   intros M1 M2 H1 H2. unfold chan_change_ok in *.
   assert (Ec : m_chan m1 = m_chan m) by apply M1. rewrite Ec in H2.
-  destruct H2 as [H2|(A & B & C)].
-  - rewrite H2. destruct H1 as [H1|(A & B & C)]; [left; exact H1|].
-    right. splits; auto. eapply closed_mono; eassumption.
-  - destruct H1 as [H1|(A' & B' & C')].
-    + right. splits; auto.
-      destruct (closed m) eqn:E; [|reflexivity].
-      rewrite (closed_mono m m1 M1 E) in A. discriminate.
-    + congruence.
+  destruct H1 as [(A1 & B1)|(A1 & B1 & C1)]; destruct H2 as [(A2 & B2)|(A2 & B2 & C2)].
+  - left. split; congruence.
+  - right. splits; congruence.
+  - right. splits; try congruence.
+  - congruence.
 Qed.
